@@ -35,7 +35,8 @@ CLAIMED = {
              "set-aside / re-insertion of fixed consumers, the revert, and established for the state built from the user "
              "data (~2500 lines of Lean). NOT proved for the port: termination of _perform_reassignments (fuel) and "
              "KIP-54 balance: the Lean statement kip54B (soundness lemma proved) is evaluated on every explored "
-             "output, and non-termination / exceptions are findings.",
+             "output — first rounds and second rounds carrying the previous assignment as user data (members leave / "
+             "join, subscriptions change, topics grow) — and non-termination / exceptions are findings.",
         design="3/C14",
         note="trusted: Lean kernel (+propext, Classical.choice, Quot.sound); T-diff harness, stub ClusterMetadata, "
              "zero-padded names; sticky assignor validity/balance only validated per explored input, not proved.",
@@ -125,13 +126,15 @@ CLAIMED = {
              "on every non-empty response, and any session of consecutive fetches concatenates to the same result. No "
              "theorem is partial. The model is tied to the code on every run by differential execution of the real "
              "classes on encoded logs (about 15 k fetches quick, 2.6 M thorough, both batch readers, whole sessions "
-             "against an independent reference reader), and the two transcriptions of the broker are cross-checked on "
-             "every case.",
+             "against an independent reference reader, and real FetchResponse v1..v11 structs through the real "
+             "Fetcher._proc_fetch_request so that the aborted index and LSO handed to PartitionRecords are the "
+             "response's), and the two transcriptions of the broker are cross-checked on every case.",
         design="3/C08",
         note="trusted: Lean kernel; the broker model (fetch range, LSO/HW bound, Kafka aborted-transaction index incl. "
              "log-cleaner retention) transcribed in Python and Lean and compared per case; the harness encoder; byte "
              "decoding (C09/C10) beyond six header accessors. Not proved: position after a partially consumed response "
-             "(tied only; C03). Isolation level on the wire observed directly, no model. Assumes v2 batches and "
+             "(tied only; C03). Isolation level and fetch offset on the wire observed directly, no model; ApiVersions "
+             "negotiation replaced by pinning each Fetch version. Assumes v2 batches and "
              "cleaner-consistent logs.",
         technique="Lean 4 proof (closed-form invariant + log semantics) + T-diff on real PartitionRecords/FetchResult over encoded logs",
     ),
@@ -144,7 +147,9 @@ CLAIMED = {
              "seek taking effect for the very next record (c03_seek_next); silence while paused, unassigned or filtered "
              "out. Tied to the code on every run by three differential / trace layers on the real classes (unpack over "
              "encoded v0/v1/v2 logs with every cut; Fetcher+SubscriptionState scripts; the real consumer on the simulator "
-             "with probe snapshots); the property checker holdsC03 is evaluated on every simulator trace. 'Continues to "
+             "with probe snapshots, incl. exact-tie fetch completions and applications that poll a strict subset of "
+             "partitions sharing a leader; a spinning fetch loop is reported as livelock); the property checker holdsC03 "
+             "is evaluated on every simulator trace. 'Continues to "
              "the end once faults cease' is c03_progress_partial: model-side progress plus a bounded virtual-time run.",
         design="3/C03",
         note="trusted: Lean kernel; the harness encoders, probe and driver glue; the simulator's Fetch semantics; record "
@@ -161,7 +166,8 @@ CLAIMED = {
              "counterexample for the code before the fix). Tied by trace validation with state snapshots: exhaustive "
              "event insertion on the real Fetcher (rig), and the real consumer on the simulator across 35 "
              "configurations (committed absent/inside/below/beyond/zero x policy x isolation x group/group-less), "
-             "ListOffsets v0-v3, lookup faults, and a seek at every event index.",
+             "ListOffsets v0-v3, lookup faults, a seek at every event index, staggered committed-offset lookups and "
+             "repeated (re-)assignments of group-less consumers.",
         design="3/C13",
         note="trusted: Lean kernel; probe and driver glue; simulator semantics of OffsetFetch / ListOffsets / out-of-range; "
              "the coordinator's delivery of the committed offset is covered by traces only.",
@@ -177,7 +183,9 @@ CLAIMED = {
              "delivers only at or above the committed offset (or the reset position, only after 'no committed offset') it "
              "was started at, skipping nothing visible. Tie: real AIOKafkaConsumer group members run on the simulator "
              "(kills, stops, joins, auto-commit timers racing deliveries, commit(), failing commit replies, coordinator "
-             "failover, subscription and partition-count changes, transactional producers); the recorded history must be "
+             "failover, subscription and partition-count changes, transactional producers, hand-outs that raise in the "
+             "middle: key/value deserializers failing on chosen records and one-shot CRC corruption of a served batch, "
+             "after which the application keeps polling and committing); the recorded history must be "
              "accepted by the Lean acceptor with the simulated logs as visibility ground truth, and the property is also "
              "evaluated directly on the observations.",
         design="3/C04",
@@ -279,10 +287,12 @@ CLAIMED = {
              "records and offsets, the three protocol-order clauses on the request log, and 'retriable faults alone "
              "never fail a call or a send' (partial: no clock, one fault). For arbitrary histories a trace acceptor is "
              "proved atomic: whatever it accepts, committed-and-acknowledged records are readable and aborted or "
-             "fenced ones never are; the acceptor also enforces produce-after-add, no data outside the transaction and "
+             "fenced ones never are; the acceptor also enforces produce-after-add (coordinator side and as the client "
+             "saw the acknowledgement), no data outside the transaction, the transactional flag in every batch and "
              "EndTxn only after all acks. On every run seeded concurrent workloads of the real producer (several "
-             "incarnations, zombies, retriable and connection faults at all seven transactional request types, slow "
-             "coordinators and leaders) are validated through the acceptor, cross-checked against the simulator's logs "
+             "incarnations, zombies, send() and create_batch()/send_batch(), offsets maps of 1-3 partitions, retriable, "
+             "connection, authorization and non-retriable Produce faults at all seven transactional request types, "
+             "slow coordinators and leaders, 186 exact schedules) are validated through the acceptor, cross-checked against the simulator's logs "
              "and compared with an independent read-committed reader. Liveness on the implementation is a bounded "
              "virtual-time observation.",
         design="0.3/C07",
